@@ -55,21 +55,37 @@ def perturb(spec):
         for t, col in s2["bidoffer"].items():
             for i in range(spec_cut + 1, n):
                 col[i] = round(col[i] * max(f(), 0.1), 8)
+    cutd = spec["dates"][spec_cut]
+
+    def later(d):
+        return (d > cutd and len(d) == len(cutd)) or (len(d) != len(cutd) and d[:10] > cutd[:10])
+
+    def change(col, fdates, isbool=False):
+        for i, d in enumerate(fdates):
+            if later(d):
+                x = f()
+                if isbool:
+                    if x > 1.0:
+                        col[i] = not col[i]
+                elif col[i] is None:
+                    if x > 1.1:
+                        col[i] = round(x - 1.0, 4)
+                else:
+                    col[i] = None if x == 0.0 else round(col[i] * x - (0.1 if x < 0.8 else 0.0), 6)
+
     for nm, fr in (s2.get("frames") or {}).items():
+        kind = fr.get("kind", "frame")
         fdates = fr.get("dates", spec["dates"])
-        cutd = spec["dates"][spec_cut]
-        for c, col in fr["cols"].items():
-            for i, d in enumerate(fdates):
-                if d > cutd and len(d) == len(cutd) or (len(d) != len(cutd) and d[:10] > cutd[:10]):
-                    x = f()
-                    if fr.get("dtype") == "bool":
-                        if x > 1.0:
-                            col[i] = not col[i]
-                    elif col[i] is None:
-                        if x > 1.1:
-                            col[i] = round(x - 1.0, 4)
-                    else:
-                        col[i] = None if x == 0.0 else round(col[i] * x - (0.1 if x < 0.8 else 0.0), 6)
+        if kind == "frame":
+            for c, col in fr["cols"].items():
+                change(col, fdates, fr.get("dtype") == "bool")
+        elif kind == "series":
+            change(fr["values"], fdates)
+        elif kind == "dictframes":
+            for sub in fr["frames"].values():
+                for c, col in sub.items():
+                    change(col, spec["dates"])
+        # 'table' frames (close / roll dates per security) are not dated rows
     return s2
 
 
@@ -112,9 +128,15 @@ def node_series(bt, m, upto):
     names = ["_prices", "_values", "_notl_values"] + (["_cash", "_fees", "_all_flows"] if isstrat else ["_positions", "_outlays"])
     if m._bidoffer_set:
         names.append("_bidoffers_paid")
+    if isinstance(m, bt.core.CouponPayingSecurity):
+        names += ["_coupon_income", "_holding_costs"]
     for nm in names:
         ser = getattr(m, nm)
         out[nm] = [_n(x) for x in np.asarray(ser.loc[:upto], dtype=float).tolist()]
+    risks = getattr(m, "risks", None)
+    if risks is not None:
+        for c in risks.columns:
+            out["_risks." + str(c)] = [_n(x) for x in np.asarray(risks[c].loc[:upto], dtype=float).tolist()]
     return out
 
 
@@ -160,7 +182,7 @@ def case_pair(ctx, spec):
         f2 = interp.tree_history(b2.strategy, bt) if e2 is None else None
         differs = f1 != f2
     traded = any(any(x not in (0.0, None) for x in h.get("_outlays", [])) for h in h1.values())
-    labs = gen.spec_labels(base)
+    labs = gen.spec_labels(base) + ["family=" + spec.get("family", "?")]
     return {"nontrivial": bool(differs and traded), "labels": labs}
 
 
@@ -205,8 +227,80 @@ def sparse_frame_spec(draw):
 
 
 @st.composite
+def vol_spec(draw):
+    """family for the two stock algos that estimate a covariance over a look-back window ending at now - lag and are not part of the
+    shared grammar: TargetVol (rescales weights) and PTE_Rebalance (gates a rebalance on the tracking error to a dated target frame)"""
+    ds = draw(gen.dates(8, 20, kinds=("bday", "daily", "mixed")))
+    n = len(ds)
+    nt = draw(st.integers(2, 4))
+    tickers = gen.TICKERS[:nt]
+    pr = draw(gen.prices(n, tickers, n_clean=nt, vol=draw(st.sampled_from([0.01, 0.05]))))
+    g = gen.max_gap_days(ds)
+    lb = {"days": draw(st.integers(2 * g + 1, 6 * g + 10))}
+    lag = {"days": draw(st.sampled_from([0, 0, 1, 2, g]))}
+    cm = draw(st.sampled_from(["standard", "standard", "ledoit-wolf"]))
+    after = draw(st.integers(3, max(3, n // 2)))
+    frames = {}
+    if draw(st.booleans()):
+        ks = draw(st.lists(st.sampled_from(tickers), min_size=1, max_size=nt, unique=True))
+        raw = [draw(st.integers(1, 6)) for _ in ks]
+        ws = {k: round(r / float(sum(raw)), 4) for k, r in zip(ks, raw)}
+        algos = [
+            ["RunAfterDays", {"days": after}],
+            draw(st.sampled_from([["RunDaily", {}], ["RunWeekly", {}], ["RunMonthly", {}]])),
+            ["WeighSpecified", {"weights": ws}],
+            ["TargetVol", {"target": draw(st.sampled_from([0.05, 0.1, 0.2, 0.4])), "lookback": lb, "lag": lag, "covar_method": cm}],
+            ["Rebalance", {}],
+        ]
+        fam = "targetvol"
+    else:
+        cols = {t: [] for t in tickers}
+        for _ in range(n):
+            raw = [draw(st.integers(0, 5)) for _ in tickers]
+            tot = float(sum(raw)) or 1.0
+            for t, r in zip(tickers, raw):
+                cols[t].append(round(r / tot, 4))
+        frames["tw"] = {"kind": "frame", "cols": cols}
+        pte = ["PTE_Rebalance", {"cap": draw(st.sampled_from([0.0, 0.01, 0.05, 0.2])), "frame": "tw", "lookback": lb, "lag": lag, "covar_method": cm}]
+        algos = [["Or", {"algos": [["RunOnce", {}], ["Stack", {"algos": [["RunAfterDays", {"days": after}], pte]}]]}], ["WeighTarget", {"frame": "tw", "by_name": False}], ["Rebalance", {}]]
+        fam = "pte"
+    return {
+        "dates": ds,
+        "prices": pr,
+        "rng_seed": 0,
+        "frames": frames,
+        "additional": [],
+        "integer_positions": draw(st.booleans()),
+        "initial_capital": 1e6,
+        "fee": {"kind": "none"},
+        "tree": {"name": "root", "kind": "Strategy", "algos": algos, "children": list(tickers)},
+        "family": fam,
+    }
+
+
+@st.composite
 def pair_spec(draw):
-    spec = draw(sparse_frame_spec()) if draw(st.integers(0, 4)) == 0 else draw(gen.backtest_spec(min_dates=4, max_dates=18))
+    k = draw(st.integers(0, 19))
+    if k < 4:
+        spec = draw(sparse_frame_spec())
+        spec["family"] = "sparse_frame"
+    elif k < 7:
+        spec = draw(vol_spec())
+    elif k < 10:
+        # fixed-income books: dated coupons, long/short holding costs, notional schedule, spreads
+        from . import c17
+
+        spec = draw(c17.run_spec())
+        spec["family"] = "fixed_income"
+    elif k < 12:
+        # dated unit-risk tables read by UpdateRisk / HedgeRisks
+        from . import c20
+
+        spec = draw(c20.risk_spec(hedge=draw(st.booleans())))
+        spec["family"] = "risk"
+    else:
+        spec = draw(gen.backtest_spec(min_dates=4, max_dates=18, depth3=draw(st.integers(0, 5)) == 0))
+        spec["family"] = "grammar"
     n = len(spec["dates"])
     spec["perturb"] = {
         "cut": draw(st.integers(0, n - 2)),
